@@ -317,6 +317,7 @@ struct Extractor {
       }
       O["e"] = std::move(A);
       if (const RecordType *RT = Sem->getType()->getAs<RecordType>()) {
+        O["rec"] = recName(RT->getDecl());
         json::Array F;
         if (RT->getDecl()->isUnion()) {
           if (const FieldDecl *UF = Sem->getInitializedFieldInUnion())
